@@ -43,11 +43,20 @@ Proof. exact merge_order_irrelevant. Qed.
 Theorem C08_decode_encode : forall fid l, Permutation (i_ents (decode fid (encode l))) l.
 Proof. exact decode_encode. Qed.
 
+(* DecodeIndex rejects exactly the files holding a value above 2^32-1; Load fails iff such a file is to be merged *)
+Theorem C08_decode_checked : forall fid f,
+  (file_fits f = true -> decode_checked fid f = Some (decode fid f)) /\ (file_fits f = false -> decode_checked fid f = None).
+Proof. exact decode_checked_spec. Qed.
+Theorem C08_load_checked : forall r mi L,
+  (load_checked r mi L = Some (load r mi L) <-> forall fid, In fid (to_load mi L) -> file_fits (content r fid) = true)
+  /\ (load_checked r mi L = None <-> exists fid, In fid (to_load mi L) /\ file_fits (content r fid) = false).
+Proof. exact load_checked_spec. Qed.
+
 Theorem C08_oracle_sound : forall c, check_C08 c = true ->
   match c with
   | CHist r steps => forall L o, In (L, o) steps -> step_meaning r L o
   | CCodec ents decoded dpacks => Permutation ents decoded /\ (forall p, In p dpacks <-> In p (map e_pack ents))
-  | CReject _ crashed => crashed = false
+  | CReject f crashed errored => crashed = false /\ (file_fits f = false -> errored = true)
   end.
 Proof. exact check_C08_sound. Qed.
 Theorem C08_step_ok_iff : forall r L o, step_ok r L o = true <-> step_meaning r L o.
@@ -64,6 +73,8 @@ Print Assumptions C08_lookup_fresh.
 Print Assumptions C08_incremental_eq_fresh.
 Print Assumptions C08_merge_order_irrelevant.
 Print Assumptions C08_decode_encode.
+Print Assumptions C08_decode_checked.
+Print Assumptions C08_load_checked.
 Print Assumptions C08_oracle_sound.
 Print Assumptions C08_step_ok_iff.
 Print Assumptions C08_model_ok_step.
